@@ -76,6 +76,7 @@ def check_record(snap, log, N, ev, where):
     """C06 oracle on one moment: ordered, complete, faithful record"""
     msgs = list(snap.link_errors)
     items = snap.items
+    image = ev if callable(ev) else ev.GetImage
     if len(items) < 3:
         return msgs + [f"{where}: search information has {len(items)} items after {len(log)} trials"]
     xs = [it.x for it in items]
@@ -105,11 +106,11 @@ def check_record(snap, log, N, ev, where):
             msgs.append(f"{where}: item x={it.x!r} stores z={it.z!r}, value holder {it.fv!r}; objective gave {v!r} there")
         else:
             pending.pop(found)
-        img = ev.GetImage(it.x)
+        img = image(it.x)
         if not np.array_equal(img, np.asarray(it.y)):
             msgs.append(f"{where}: item x={it.x!r} stores point {np.asarray(it.y).tolist()}, evolvent image is {img.tolist()}")
     for end in (items[0], items[-1]):
-        img = ev.GetImage(end.x)
+        img = image(end.x)
         if not np.array_equal(img, np.asarray(end.y)):
             msgs.append(f"{where}: end item x={end.x!r} stores point {np.asarray(end.y).tolist()}, image is {img.tolist()}")
     for prev, it in zip(items, items[1:]):
@@ -118,3 +119,90 @@ def check_record(snap, log, N, ev, where):
             if not (abs(it.delta - d) <= 1e-12 * d):
                 msgs.append(f"{where}: item x={it.x!r} stores length {it.delta!r}, (x-x_left)^(1/N)={d!r}")
     return msgs
+
+
+class MomentVisitor:
+    """Applies a state oracle at every observable moment of an execution:
+    after each DoGlobalIteration(1) from outside, inside every OnEndIteration callback, and - on a twin
+    execution that uses Solve() over the same answers - inside OnEndIteration / OnMethodStop and on the
+    returned Solution."""
+
+    solve_twin = True
+
+    def __init__(self):
+        self.acc = dict(moments=0, callback_moments=0, solve_twins=0, nontrivial_runs=0)
+        self.run = None
+
+    # -- to override
+    def oracle(self, run, snap, where):
+        return []
+
+    def nontrivial(self, run):
+        return True
+
+    # -- plumbing
+    def listeners(self, cfg):
+        from mc.env import Recorder
+        self.cb_msgs = []
+        return [Recorder(on_iter=self._on_iter, on_stop=self._on_stop)]
+
+    new_from = 1
+
+    def _moment(self, where):
+        run = self.run
+        if run is None or not run.problem.log or len(run.problem.log) < self.new_from:
+            return
+        self.acc["callback_moments"] += 1
+        self.cb_msgs += self.oracle(run, Snapshot(run.solver), where)
+
+    def _on_iter(self, pts, sol):
+        self._moment("inside OnEndIteration")
+
+    def _on_stop(self, sd, sol, status):
+        self._moment("inside OnMethodStop")
+
+    def begin(self, run, cfg):
+        if self.run is not None:
+            self.acc["nontrivial_runs"] += int(bool(self.nontrivial(self.run)))
+        self.run = run
+        self.cfg = cfg
+        self.cb_msgs = []
+
+    def node(self, run, j, new):
+        msgs, self.cb_msgs = self.cb_msgs, []
+        if not new:
+            return []
+        self.acc["moments"] += 1
+        return msgs + self.oracle(run, Snapshot(run.solver), f"after iteration {j}")
+
+    def leaf(self, run):
+        if not self.solve_twin:
+            return []
+        from mc import tree
+        n = len(run.problem.log)
+        answers = [v for _, v in run.problem.log]
+        cfg = dict(self.cfg, eps=0.0, itersLimit=n)
+        keep = self.run
+        twin = tree.make_run(cfg, lambda k, y: answers[k - 1], listeners=self.listeners(cfg))
+        self.run = twin
+        keep_from, self.new_from = self.new_from, 1
+        msgs = []
+        try:
+            sol = twin.solve()
+            msgs += [m + " (during Solve)" for m in self.cb_msgs]
+            msgs += [m + " (returned Solution)" for m in self.oracle(twin, Snapshot(twin.solver), "after Solve")]
+            if sol is not twin.solver.GetResults():
+                pass
+        except BaseException as e:
+            msgs.append(f"Solve raised {type(e).__name__}: {e}")
+        self.acc["solve_twins"] += 1
+        self.run = keep
+        self.new_from = keep_from
+        self.cb_msgs = []
+        return msgs
+
+    def summary(self):
+        if self.run is not None:
+            self.acc["nontrivial_runs"] += int(bool(self.nontrivial(self.run)))
+            self.run = None
+        return self.acc
